@@ -90,7 +90,8 @@ type Sched struct {
 	start       time.Time
 	draining    bool
 	panics      []string
-	WriterPendR int // RWMutex reader arrived while a writer was pending
+	WriterPendR int            // RWMutex reader arrived while a writer was pending
+	own         map[string]int // scheduling steps taken by each task (its own progress, independent of fairness)
 }
 
 // New creates a scheduler and installs the simhook functions. Must be called inside a synctest bubble.
@@ -99,7 +100,7 @@ func New(tape *Tape, cfg Config) *Sched {
 		cfg.MaxSteps = 200000
 	}
 	s := &Sched{cfg: cfg, tape: tape, parked: map[string]*parked{}, byGoid: map[int64]*task{}, spawned: map[string]int{},
-		Points: map[string]int{}, start: time.Now(), hash: 14695981039346656037}
+		Points: map[string]int{}, start: time.Now(), hash: 14695981039346656037, own: map[string]int{}}
 	if cfg.Policy == PolPCT {
 		s.pctChange = map[int]bool{}
 		d := cfg.PCTDepth
@@ -380,10 +381,15 @@ func (s *Sched) release(p *parked) {
 	h.Write([]byte(ev))
 	s.hash = (s.hash ^ h.Sum64()) * 1099511628211
 	s.Points[p.point]++
+	s.own[p.t.name]++
 	s.Steps++
 	s.last = p.t.name
 	close(p.ch)
 }
+
+// OwnSteps is the number of scheduling steps task name has taken so far: a measure of its own progress that
+// does not depend on how (un)fairly the schedule treats it.
+func (s *Sched) OwnSteps(name string) int { return s.own[name] }
 
 // Note appends an observation to the event log (and the fingerprint) without scheduling anything.
 func (s *Sched) Note(ev string) {
